@@ -143,6 +143,7 @@ func (x *Exec) callContract(st *State, fn *ssa.Function, con *Contract, args []V
 		argT = append(argT, x.term(st, a, pos))
 	}
 	ctx := x.newSpecCtx(st, nil, fn)
+	ctx.callSite = true
 	ctx.bindParams(fn, argT)
 	if recvIface != nil {
 		ctx.vars["this"] = recvIface
@@ -161,15 +162,19 @@ func (x *Exec) callContract(st *State, fn *ssa.Function, con *Contract, args []V
 	for k, v := range st.heap {
 		oldHeap[k] = v
 	}
+	preMod := map[string]bool{}
+	for k, v := range st.fullMod {
+		preMod[k] = v
+	}
 	oldTrace := st.trace
 	oldAlloc := st.allocCtr
-	for n := range x.effectsOf(fn) {
+	for n, full := range x.effectsOf(fn) {
 		if n == "$trace" {
 			x.havocTrace(st)
 		} else if n == "$slice" {
 			x.unsupported(st, pos, "callee %s writes slice elements in place", key)
 		} else {
-			x.heapHavoc(st, n)
+			x.heapHavoc(st, n, full, oldAlloc)
 		}
 	}
 	na := st.Fresh("alloc", "Int")
@@ -179,6 +184,8 @@ func (x *Exec) callContract(st *State, fn *ssa.Function, con *Contract, args []V
 
 	mkPost := func(s *State, clauses []Clause, results []*Term, pv *Term) {
 		pc := x.newSpecCtx(s, nil, fn)
+		pc.callSite = true
+		pc.preMod = preMod
 		pc.bindParams(fn, argT)
 		if recvIface != nil {
 			pc.vars["this"] = recvIface
@@ -294,9 +301,14 @@ func (x *Exec) callContractSig(st *State, con *Contract, ms *methodStub, recv *T
 		}
 	}
 	ctx := x.newSpecCtx(st, nil, nil)
+	ctx.callSite = true
 	ctx.pkgPath = con.PkgPath
 	bindAll(ctx)
 	ctx.evalLets(con)
+	preMod := map[string]bool{}
+	for k, v := range st.fullMod {
+		preMod[k] = v
+	}
 	if con.Logged {
 		kind := evMeth
 		sarg := mk("Str", "sempty")
@@ -329,14 +341,14 @@ func (x *Exec) callContractSig(st *State, con *Contract, ms *methodStub, recv *T
 	oldAlloc := st.allocCtr
 	eff := map[string]bool{}
 	for _, impl := range x.implementers(c) {
-		for n := range x.effectsOf(impl) {
-			eff[n] = true
+		for n, full := range x.effectsOf(impl) {
+			mergeEff(eff, n, full)
 		}
 	}
 	for _, m := range con.Modifies {
 		eff[m] = true
 	}
-	for n := range eff {
+	for n, full := range eff {
 		if n == "$trace" {
 			if !con.Logged {
 				x.havocTrace(st)
@@ -344,7 +356,7 @@ func (x *Exec) callContractSig(st *State, con *Contract, ms *methodStub, recv *T
 		} else if n == "$slice" {
 			x.unsupported(st, pos, "implementation of %s writes slice elements in place", key)
 		} else {
-			x.heapHavoc(st, n)
+			x.heapHavoc(st, n, full, oldAlloc)
 		}
 	}
 	na := st.Fresh("alloc", "Int")
@@ -357,6 +369,8 @@ func (x *Exec) callContractSig(st *State, con *Contract, ms *methodStub, recv *T
 	}
 	post := func(s *State, clauses []Clause, results []*Term, pv *Term) {
 		pc := x.newSpecCtx(s, nil, nil)
+		pc.callSite = true
+		pc.preMod = preMod
 		pc.pkgPath = con.PkgPath
 		bindAll(pc)
 		pc.oldHeap, pc.oldTrace, pc.oldAlloc, pc.hasOld = oldHeap, oldTrace, oldAlloc, true
@@ -475,7 +489,7 @@ func (x *Exec) builtin(st *State, b *ssa.Builtin, c *ssa.CallCommon, args []Val,
 		dn, _ := x.reg.MapArrays(x.reg.SortOf(mt.Key()), x.reg.SortOf(mt.Elem()))
 		ds := x.reg.heap[dn][1]
 		d := x.heapGet(st, dn)
-		x.heapSet(st, dn, sto(d, m, sto(sel(d, m, ds), k, tFalse)))
+		x.heapStoreAt(st, dn, m, sto(sel(d, m, ds), k, tFalse))
 		return []Outcome{{st: st}}
 	}
 	x.unsupported(st, pos, "builtin %s", b.Name())
